@@ -84,6 +84,12 @@ CLAIMED.update({
    text='|dequant(quant(x)) - x| <= s/2 (symmetric) / s (asymmetric) for every x in the statistics range and every integer range (lemma chain over the reference functions, linked to the code by C17/C04); int4 nibble packing for arbitrary length and index; quantize_tensor writes exactly pack(bytes(quantized_data)), dtype table, scale/zeroPoint/dimension fields, under the precondition "stored data <=> quantized_data present", which every registered materialize path and every call site is shown to establish; fp16 constants are astype(float16) of the originals; bias = clip(rint(bias/scale)).',
    note='float32 arithmetic treated as real arithmetic (binary32 decode only sampled in a bounded stand-in); numpy astype(float16) = round-to-nearest-even trusted; tobytes/frombuffer trusted; int64 bias saturation at +2^63 noted as an observation outside the property (saturation exempted).',
    design='§4 C05'),
+ 'C09': dict(
+   technique='contract-based deductive verification: AST symbolic executor (pyvc) over the real Calibrator code (whole calibrate loop with callee contracts, _update_qsvs, load_model_qsvs, _initialize_model_qsvs); CPython-executed symbolic arrays for the moving average and min/max collection; spec-level induction lemmas for fold/resume',
+   level='proof',
+   text='Moving-average step = 0.95*old + 0.05*new (first sample initialises) for both statistics; _update_qsvs updates exactly the reported, non-ignored names once and returns them; the per-sample loop of calibrate folds every selected tensor exactly once per sample with that sample\'s content-map statistic, in dataset order, resetting the interpreter after each sample; load_model_qsvs stores a deep copy (previous result untouched); fold(fold(s,D1),D2) = fold(s,D1++D2) by induction given that the step reads only (state, sample); min_max_calibrate records min/max of exactly the runtime operands; constants: init_tensor_min_max (C04).',
+   note='Interpreter assumed to return the true per-sample tensors and to be stateless after reset_all_variables; binary32 arithmetic treated as real; np.min/np.max attainment trusted; QSVs abstract values in the bookkeeping proofs; end-to-end agreement with own interpreter runs only in a bounded stand-in.',
+   design='§4 C09'),
  'C10': dict(
    technique='contract-based deductive verification: both _get_op_scope copies verified against one spec function (AST symbolic executor, loop invariant, string theory as uninterpreted concat+length, z3); call-site/dataflow obligations on the real ASTs of the three selection loops',
    level='proof',
